@@ -70,6 +70,20 @@ TEXT = {
             "to training / fresh / on-threshold points and compared with predict; names mapped back; refusals",
             "Runtime monitoring over the C09 fit workload (~2k printed trees per quick run, ~100k points).",
             "Thresholds are printed with a round-tripping repr; generated names contain no ' <= ' / ' > '."),
+    "C06": ("invariants at hooks: class-level wrappers on Sparse*Model._update_weights with a snapshot taken inside "
+            "update_params (weights right after the optimiser step + the optimiser's learning rate) compared with the "
+            "reference proximal operators; quiescent-point checks at every path validation score, after fit, after path "
+            "(selection == exact non-zero rows, inertness by perturbing unselected columns, group wholeness, groups_)",
+            "Runtime monitoring: ~30k proximal steps and ~9k quiescent points per quick run over the five sparse estimators.",
+            "Reference prox of C05; rows with zero skip weights but non-zero hidden weights are skipped (non-unique minimiser)."),
+    "C07": ("event log + executable reference model: every validation score of path() is logged with a snapshot of all "
+            "weights, the model's alpha and the number of optimiser updates since the previous one; an offline checker "
+            "segments the log into outer steps and replays the documented rule (alpha recurrence, histories, stopping, "
+            "patience, best weights bit for bit, restoration, defaults+warnings, differential runs); NaN fault injection at "
+            "the validation hook; termination as bounded progress on logical steps",
+            "Runtime monitoring of 320 (quick) / 5000 (thorough) path() calls with hostile arguments.",
+            "'Always terminates' is restated as bounded progress (1500 outer steps); budget exhaustion without a stuck "
+            "schedule is inconclusive. One open finding (dynamic mode, empty selection) is classified by mechanism."),
 }
 
 TECH_DEFAULT = "runtime monitoring: contracts/invariants at hooked call sites over generated workloads"
